@@ -302,7 +302,7 @@ def check(run):
         "the AST value and (ASCII) the text printed by the compiled program under Sem/GoSem.v must be the characters written. distinct_nontrivial = trees that round-trip" % (n_ex, n_rand)
     )
     run.cov["correspondence"] = stats
-    run.cov["open_obligations"] = ["items, patterns and types are covered by the corpus round trip in C12 (lossless CST), not by a tree printer", "three call-association deviations are known findings and masked in the generator"]
+    run.cov["open_obligations"] = ["the theorem is stated for every sufficiently large fuel; that the model's concrete fuel 4*len+8 suffices is checked on every tested tree, not proved", "items, patterns and types are covered by the corpus round trip in C12 (lossless CST), not by a tree printer", "three call-association deviations are known findings (refutation examples in C11/Properties.v) and outside the class ok"]
     run.assumptions = []
     if wits:
         for w in wits[:3]:
@@ -359,9 +359,9 @@ def model_correspondence(run, trees, wits):
     per = 400
     texts = []
     for i in range(0, len(cases), per):
-        body = "From Goml Require Import Common.Base C11.Model.\nOpen Scope nat_scope.\nDefinition cases : list (list tok * expr) := [%s].\n" % ";\n".join(cases[i : i + per])
-        body += "Definition ok (c : list tok * expr) : bool := match parse_expr (fst c) with Some e => expr_eqb e (snd c) | None => false end && list_tok_eqb (print (snd c)) (fst c).\n"
-        body += "Eval vm_compute in (length (filter (fun c => negb (ok c)) cases), map N.of_nat (bad_idx (map ok cases))).\n"
+        body = "From Goml Require Import Common.Base C11.Model C11.Proofs.\nOpen Scope nat_scope.\nDefinition cases : list (list tok * expr) := [%s].\n" % ";\n".join(cases[i : i + per])
+        body += "Definition okc (c : list tok * expr) : bool := match parse_expr (fst c) with Some e => expr_eqb e (snd c) | None => false end && list_tok_eqb (print (snd c)) (fst c).\n"
+        body += "Eval vm_compute in (length (filter (fun c => negb (okc c)) cases), map N.of_nat (bad_idx (map okc cases))).\n"
         texts.append(body)
     outs = vlib.coq_eval_many("c11model", texts)
     nbad = 0
@@ -375,7 +375,7 @@ def model_correspondence(run, trees, wits):
             idx = [int(x) for x in re.findall(r"\d+", m.group(2))]
             nbad += int(m.group(1))
             for j in idx[:2]:
-                wits.append({"kind": "the Coq parser/printer model disagrees with the documented rendering on a tree the real parser round-trips (model no longer describes the code)", "case": cases[i * per + j]})
+                wits.append({"kind": "the Coq parser/printer model disagrees with the real parser on a tree the real parser round-trips, its concrete fuel does not suffice, or the tree is outside the class of the round-trip theorem (model no longer describes the code)", "case": cases[i * per + j]})
     return {"cases": len(cases), "model_disagreements": nbad}
 
 
